@@ -76,6 +76,10 @@ type run struct {
 	pollDead bool
 	infra    []string
 	finished atomic.Bool // no event is logged any more
+
+	// multi-item calls (multibatch_test.go): items reported durable that a power-loss image did not hold
+	claims    []claim
+	claimSeen map[string]bool
 }
 
 type poller struct {
@@ -95,6 +99,7 @@ func (e *env) newRun(surface string, p probes, salt uint64) (*run, error) {
 		return nil, err
 	}
 	r.st = st
+	st.afterCancelled = r.cancelledAttempt
 	// the freshly created directories are made durable (a store whose directory entry is not
 	// synced yet is not what the property is about)
 	for _, d := range []string{"/", "/s"} {
